@@ -132,13 +132,14 @@ func mergeWorkload(c *Ctx, slice int) {
 		}
 		rng := c.Rng(i)
 		class := planClasses[i%len(planClasses)]
-		if class == "tall" && i%(len(planClasses)*c.N(4, 3)) != 7 {
+		round := i / len(planClasses)
+		if class == "tall" && round%c.N(4, 3) != 0 {
 			class = "random" // tall plans are big: only every few rounds
 		}
-		if class == "tall-edge" && i%(len(planClasses)*2) != 0 {
+		if class == "tall-edge" && round%2 != 0 {
 			class = "different"
 		}
-		if class == "xwide" && i%(len(planClasses)*3) != 1 {
+		if class == "xwide" && round%3 != 0 {
 			class = "chain"
 		}
 		runMergePlan(c, i, rng, class, slice)
